@@ -9,6 +9,7 @@ import YtkProofs.Diff
 import YtkProofs.DiffSpec
 import YtkProofs.DiffRel
 import YtkProofs.DiffOverlay
+import YtkProofs.DiffDet
 import YtkProofs.ValidB
 
 namespace Ytk.C07
@@ -82,26 +83,33 @@ theorem overlayDocs_spec (l r : AMap (AMap Node)) (hl : AMap.Sorted l) (hr : AMa
       then some (diff ((AMap.get? l n).getD []) ((AMap.get? r n).getD []))
       else none := get?_overlayDocs l r hl hr n
 
+/-- Determinism at full strength: for documents constructible through the API (`Valid`) over
+    path-safe keys (`SafeKeys`: non-empty, without `.` and `[`), whatever order Go ranges over its
+    maps in — both loops of diff() and every flattenContainer, at every depth — sorting what was
+    emitted gives exactly `diff l r`, ties included. -/
+theorem diff_det (l r : AMap Node) (hl : Good (.cont l)) (hr : Good (.cont r)) (ms : List Mod)
+    (h : EmitRel (.cont l) (.cont r) "" ms) : sortMods ms = diff l r :=
+  sortMods_emitRel hl hr h
+
+/-- … because every traversal emits, for each path, the same modifications in the same order. -/
+theorem emit_order_irrelevant_per_path (l r : AMap Node) (hl : Good (.cont l)) (hr : Good (.cont r))
+    (ms : List Mod) (h : EmitRel (.cont l) (.cont r) "" ms) (q : String) :
+    ms.filter (fun m => m.path = q) = (emit l r).filter (fun m => m.path = q) :=
+  emitRel_filter h hl hr q
+
 /-
-  TODO (stated, not proved) — determinism at full strength, and the two facts it rests on:
+  TODO (stated, not proved) — the shape of ties and multiplicity one:
 
-    theorem diff_det (l r : AMap Node) (hl : (Node.cont l).Valid) (hr : (Node.cont r).Valid)
-        (hs : SafeKeys l ∧ SafeKeys r) (ms : List Mod) (h : EmitRel (.cont l) (.cont r) "" ms) :
-        sortMods ms = diff l r
+    theorem diff_delete_before_add (l r) (hl : Good (.cont l)) (hr : Good (.cont r)) (i j : Nat) (hij : i < j) … :
+        (diff l r)[i].path = (diff l r)[j].path → (diff l r)[i].ty = .delete ∧ (diff l r)[j].ty = .add
+    theorem diff_nodup_positions … : per path at most one Delete, one Change, one Add
 
-    theorem diff_delete_before_add … : for i < j with equal paths in `diff l r`,
-        (diff l r)[i].ty = .delete ∧ (diff l r)[j].ty = .add          -- ties
-    theorem diff_nodup_positions … : at most one Delete, one Change and one Add per path
-
-  By `sort_order_independent` and `diff_ties_emission_order` (both proved) all three reduce to
-  one missing lemma: for path-safe keys the blocks emitted for two different keys of one
-  container have disjoint path sets (every path below key `k` is `toPath p k` followed by
-  nothing, `.` or `[`), so that for every path q
-      ms.filter (·.path = q) = (emit l r).filter (·.path = q)
-  — the only equal-path pair being the `Delete p, Add p` emitted together by one
-  handleExisting call.  That is a string-level fact about toPath/toListPath over the safe
-  alphabet (C02's `render_injective_on_leafPaths`).  Until then determinism with ties is
-  carried by the harness (20 repeated calls per pair on fresh maps, compared as sequences).
+  `diff_ties_emission_order` (proved) reduces both to the emission order; what is missing is that
+  the sub-sequence of `emit l r` for one path is `[]`, `[m]` or `[Delete p, Add p v]` — the
+  injectivity of path rendering inside one block (C02's `render_injective_on_leafPaths`), of which
+  only the between-blocks half (`key_eq_of_under`, YtkProofs/DiffDet.lean) is proved here.
+  Exactness as a set is `diff_mem_iff`; the order of ties is carried by the harness predicate
+  `ties-delete-then-add` and by `nonvacuous_diff`.
 -/
 
 /-! ## non-vacuity -/
@@ -148,6 +156,10 @@ theorem nonvacuous_other_order :
 theorem nonvacuous_overlay :
     overlayDocs [("base", exL), ("dev", exR)] [("base", exR), ("prod", exL)] =
       [("base", diff exL exR), ("dev", diff exR []), ("prod", diff [] exL)] := by decide +kernel
+
+theorem nonvacuous_good : Good (.cont exL) ∧ Good (.cont exR) := by
+  refine ⟨⟨nonvacuous_valid.1, ?_⟩, ⟨nonvacuous_valid.2, ?_⟩⟩ <;>
+    simp only [exL, exR, Node.SafeKeys, SafeKeysKvs, SafeKeysList, SafeKey] <;> decide +kernel
 
 theorem nonvacuous_tiefree : ((emit exR exL).map (·.path)).Nodup := by decide +kernel
 
